@@ -827,6 +827,26 @@ fn explore_attrs(idx: usize, e: &Entry, first: Option<usize>, thorough: bool, t:
                     });
                 }
             }
+            // a bare attribute list may carry inner-style attributes (`#![..]`): same selection,
+            // same forwarding
+            if s.tr8 == Trait::FromAttributes {
+                for variant in [base_src.clone(), format!("{prefix}#[doc = \"d\"] #[{}({})] #[allow(dead_code)] {suffix}", names[0], texts.join(", "))] {
+                    let plain = (e.run)(&variant);
+                    let isrc = format!("{variant}{}", crate::run::INNER);
+                    let iobs = (e.run)(&isrc);
+                    t.evaluations += 1;
+                    t.hit("inner_style_inputs");
+                    let (ik, pk) = (outcome_key(&iobs).replace("# ! [", "# ["), outcome_key(&plain));
+                    if ik != pk {
+                        t.violate(Violation {
+                            key: format!("C08 family=[{}] src=`{isrc}` :: inner style: {ik} vs {pk}", e.prog.family),
+                            what: format!("[{}] `{variant}` with the attributes in inner style (`#![..]`): outcome {ik}, in outer style {pk}", e.prog.family),
+                            case: json!({"engine": "corpus-attrs", "program": idx, "src": isrc, "items": items}),
+                            detail: json!({}),
+                        });
+                    }
+                }
+            }
             // every partition into consecutive blocks x every assignment of declared names
             let n = len;
             let cuts = if n == 0 { 1 } else { 1usize << (n - 1) };
